@@ -57,7 +57,7 @@ pub fn block() -> impl Strategy<Value = Vec<HOp>> {
         3 => rewrite_scenario_block(gen::edit_r1()),
         3 => stash_block(gen::edit_r1()),
         8 => trap_block(),
-        3 => reject_and_rewrite_block(),
+        6 => prop_oneof![reject_and_rewrite_block(), reset_with_pending_work_block()],
         8 => destructive_op().prop_map(|o| vec![o]),
         6 => preserving_op().prop_map(|o| vec![o]),
         3 => edit_op(gen::edit_r2()).prop_map(|o| vec![o]),
